@@ -482,13 +482,29 @@ def _nontrivial(ops):
 
 # --------------------------------------------------------------------------- check entry points
 
+def _corpus():
+    """witnesses of every recorded finding (fixed ones must pass from now on)."""
+    import common
+    for k in common.load_known(PID):
+        ops = (k.get('witness') or {}).get('ops')
+        if ops:
+            yield ops
+            # and the same history followed by removing the entity / renaming it again
+            yield ops + [{'m': 0, 'op': 'remove', 'e': 1}]
+            yield ops + [{'m': 0, 'op': 'set', 'e': 1, 'k': codes('TargetName'), 'v': codes('Baz')},
+                         {'m': 0, 'op': 'set', 'e': 1, 'k': codes('ClassName'), 'v': codes('Info_Target')},
+                         {'m': 0, 'op': 'remove', 'e': 1}]
+
+
 def _histories(ctx):
     L = ctx.budget(3, 4)
+    for h in _corpus():
+        yield 'corpus', h
     for h in FIXED:
         yield 'fixed', h
     for h in gen_exhaustive(L):
         yield 'exhaustive', h
-    for _ in range(ctx.budget(700, 8000)):
+    for _ in range(ctx.budget(1500, 25000)):
         yield 'random', gen_history(ctx.rng)
 
 
